@@ -62,11 +62,15 @@ TUpdate ==
     /\ l' = l + 1
     /\ UNCHANGED <<allowed, puts, decs>>
 
+\* the same entry k@ts can pass the write path again (value-log GC write-back creates a fresh
+\* Entry): a decide replaces an older one of the same entry, and the put that follows consumes it
+Same(d) == d.k = Ev.k /\ d.ts = Ev.ts
+
 TDecide ==
     /\ Is("decide")
     /\ Ev.threshold \in allowed
     /\ Ev.skip = ~PtrDecision(Ev.vlen, Ev.threshold)
-    /\ decs' = decs \cup {[k |-> Ev.k, ts |-> Ev.ts, skip |-> Ev.skip, threshold |-> Ev.threshold]}
+    /\ decs' = {d \in decs : ~Same(d)} \cup {[k |-> Ev.k, ts |-> Ev.ts, skip |-> Ev.skip, threshold |-> Ev.threshold]}
     /\ l' = l + 1
     /\ UNCHANGED <<thr, allowed, puts>>
 
@@ -74,12 +78,13 @@ TPut ==
     /\ Is("put")
     /\ Ev.threshold \in allowed
     \* CacheStable + DecisionConsistent against the value-log side, when it was logged
-    /\ \A d \in decs : (d.k = Ev.k /\ d.ts = Ev.ts) =>
+    /\ \A d \in decs : Same(d) =>
            (d.threshold = Ev.threshold /\ d.skip = ~PtrDecision(Ev.vlen, Ev.threshold))
+    /\ decs' = {d \in decs : ~Same(d)}
     /\ puts' = {p \in puts : ~(p.k = Ev.k /\ p.ts = Ev.ts)}
                  \cup {[k |-> Ev.k, ts |-> Ev.ts, ptr |-> PtrDecision(Ev.vlen, Ev.threshold)]}
     /\ l' = l + 1
-    /\ UNCHANGED <<thr, allowed, decs>>
+    /\ UNCHANGED <<thr, allowed>>
 
 TStored ==
     /\ Is("stored")
